@@ -91,8 +91,19 @@ RULE = ("(ra) RaggedArray / ndarray inputs with 1..300 rows (row counts around t
         "the full load -- and load_h5_as_striped on EVERY rank of world sizes 1..4 must report the same global lengths and "
         "hold tables r, r+n, ... strided (also a rank whose tables are all empty); model: load / load_h5_as_striped on the "
         "file as a node list. "
+        "(lac / lac2 with `selform`, round 3s third wave) ATOM SELECTIONS THAT ARE NOT ASCENDING (descending, rotated, one "
+        "adjacent swap, shuffled, all 22 atoms backwards), as one selection for all files (**kwargs; all .xtc or all .h5) "
+        "and as one selection per file (args=[...]; mixed .xtc/.h5/.pdb, some files ascending, in every third case the "
+        "first file, whose shape the loader probes), handed over as list / tuple / int64 / int32 / int16 ndarray / "
+        "negative-stride view / every-second-entry view / read-only array, processes 1, 2, 3; reference = md.load of each "
+        "file with the very same selection object, concatenated (lengths, xyz bit-exact; keys concat-atom-order when the "
+        "result equals the loads with the selections sorted, concat-atom-selection otherwise); the Coq comparison runs on "
+        "the reference's per-file data as for every lac case. Two (thorough: ten) selections name an atom twice: md.load "
+        "itself rejects those for every format (ValueError 'indices must be unique'), so nothing is demanded there "
+        "(tag lac-sel-repeat-reference-raises). lac2 steps select the same atoms in different orders in half the cases. "
         "non-trivial := (ra/raw) >= 2 rows of different lengths or a stride > 1 or a proper key subset; "
-        "(lac/npy) >= 2 files of different strided length")
+        "(lac/npy) >= 2 files of different strided length; (selform cases) the order of the selection changes the "
+        "expected data")
 TRUSTED = ["translator/tr_store.py (expressions, slices and loop bodies of ra.save / ra.load / util.load / mpi.io -> "
            "Gen/StoreGen.v; loop skeletons and Python builtins of Base/StoreBase.v checked by correspondence; "
            "math.ceil(n / stride) read as an exact rational ceiling: equal to the double computation while n < 2^53)",
@@ -543,6 +554,128 @@ def _lac2_case(rng, j=None):
     return {"kind": "lac2", "variant": variant, "lens": files, "steps": steps}
 
 
+# round 3s (third wave): atom selections that are not in ascending order (what top.select() never returns), handed over
+# in several container forms.  md.load keeps the order of atom_indices for every format used here (.xtc/.h5/.pdb) and
+# rejects a selection naming an atom twice (ValueError "indices must be unique") -- the per-file md.load with the very
+# same argument is the reference, and where it raises nothing is demanded.
+_SEL_ORDERS = ["desc", "rot", "swap", "shuffle", "all-desc"]
+_SEL_FORMS = ["list", "int64", "int32", "revview", "tuple", "int16", "stepview", "readonly"]
+
+
+def _sel_order(rng, order, natoms):
+    if order == "all-desc":
+        return list(range(21, -1, -1))
+    base = sorted(rng.sample(range(22), natoms))
+    if order == "asc" or natoms < 2:
+        return base
+    if order == "desc":
+        return base[::-1]
+    if order == "rot":
+        k = rng.randrange(1, natoms)
+        return base[k:] + base[:k]
+    if order == "swap":
+        k = rng.randrange(natoms - 1)
+        base[k], base[k + 1] = base[k + 1], base[k]
+        return base
+    if order == "repeat":
+        s = base + [rng.choice(base)]
+        rng.shuffle(s)
+        return s
+    s = list(base)
+    while s == base:
+        rng.shuffle(s)
+    return s
+
+
+def _sel_arg(sel, form):
+    """the atom_indices object handed to md.load / load_as_concatenated for the selection `sel` (a list of ints)"""
+    if form is None:
+        return np.array(sel)
+    if form == "list":
+        return [int(v) for v in sel]
+    if form == "tuple":
+        return tuple(int(v) for v in sel)
+    if form in ("int64", "int32", "int16"):
+        return np.array(sel, dtype=form)
+    if form == "revview":           # a negative-stride view of an array holding the selection backwards
+        return np.array(sel[::-1], dtype=np.int64)[::-1]
+    if form == "stepview":          # every second entry of a longer array
+        a = np.zeros(2 * len(sel), dtype=np.int64)
+        a[::2] = sel
+        return a[::2]
+    if form == "readonly":
+        a = np.array(sel, dtype=np.int64)
+        a.flags.writeable = False
+        return a
+    raise ValueError(form)
+
+
+def _lac_sel_case(rng, j, repeat=False):
+    """a bulk load whose atom selection(s) are not ascending: one selection for all files (**kwargs) or one per file
+    (args=[...]; then some files keep an ascending selection, in every third per-file case the FIRST file does -- the
+    loader's shape probe reads the first file only)"""
+    shared = j % 2 == 0
+    form = _SEL_FORMS[(j // 2) % len(_SEL_FORMS)]
+    order = "repeat" if repeat else _SEL_ORDERS[j % len(_SEL_ORDERS)]
+    natoms = 22 if order == "all-desc" else rng.choice([2, 3, 3, 4, 6])
+    nfiles = rng.randint(1, 4) if shared else rng.randint(2, 5)
+    strides = [100, 167, 250, 500, 501, 600] if natoms == 22 else [25, 50, 100, 167, 250, 500, 501, 600]
+    files = []
+    if shared:
+        fn, needs_top = _TRJ[((j // 2) + (j // 16)) % 2]
+        sel, st = _sel_order(rng, order, natoms), rng.choice(strides)
+        for _ in range(nfiles):
+            files.append({"fn": fn, "top": needs_top, "stride": st, "sel": sel, "frame": None})
+    else:
+        first_asc = (j // 2) % 3 == 0
+        odd = rng.randrange(1 if first_asc else 0, nfiles)         # this file's selection is surely not ascending
+        for i in range(nfiles):
+            fn, needs_top = rng.choice(_TRJ[:2] + _TRJ[:2] + _TRJ) if i else rng.choice(_TRJ[:2])
+            if i == 1 and j % 4 == 1 and fn == files[0]["fn"]:        # at least two file formats
+                fn, needs_top = _TRJ[1] if fn == _TRJ[0][0] else _TRJ[0]
+            o = order if i == odd else "asc" if (i == 0 and first_asc) else rng.choice([order, order, "asc", "shuffle"])
+            if repeat and i != odd:
+                o = rng.choice(["asc", "shuffle"])
+            frame = rng.randrange(501) if (fn != "native.pdb" and rng.random() < 0.1) else None
+            files.append({"fn": fn, "top": needs_top, "stride": rng.choice(strides),
+                          "sel": _sel_order(rng, o, natoms), "frame": frame})
+    sched = list(range(nfiles))
+    rng.shuffle(sched)
+    return {"kind": "lac", "files": files, "shared": shared, "hint": rng.random() < 0.3, "sched": sched,
+            "procs": [1, 2, 3], "selform": form, "selorder": order}
+
+
+def _lac2_sel_case(rng, j):
+    """load history (see _lac2_case) with selections that are not ascending; in half of the cases the steps select the
+    SAME atoms in different orders"""
+    c = _lac2_case(rng, j)
+    natoms = rng.choice([2, 3, 6])
+    same_atoms = j % 2 == 0
+    base = sorted(rng.sample(range(22), natoms))
+    orders = [_SEL_ORDERS[(j + k) % 4] for k in range(len(c["steps"]))]
+    if same_atoms:
+        orders[rng.randrange(len(orders))] = "asc"
+    for st, o in zip(c["steps"], orders):
+        if not same_atoms:
+            base = sorted(rng.sample(range(22), natoms))
+        sel = list(base)
+        if o == "desc":
+            sel = sel[::-1]
+        elif o == "rot":
+            k = rng.randrange(1, natoms)
+            sel = sel[k:] + sel[:k]
+        elif o == "swap":
+            k = rng.randrange(natoms - 1)
+            sel[k], sel[k + 1] = sel[k + 1], sel[k]
+        elif o == "shuffle":
+            while sel == base:
+                rng.shuffle(sel)
+        st["sel"] = sel
+    c["selform"] = _SEL_FORMS[j % len(_SEL_FORMS)]
+    c["same_atoms"] = same_atoms
+    return c
+
+
 def generate(rng, tier):
     cases = []
     quick = tier == "quick"
@@ -620,6 +753,14 @@ def generate(rng, tier):
             if L2[j] < 1:
                 L2[j] = L[j]
         cases.append({"kind": "lachist", "lens": L, "lens2": L2, "stride": rng.choice([1, 1, 2]), "procs": rng.choice([1, 2])})
+    # round 3s (third wave), drawn last so that the streams above keep their draws: atom selections that are not
+    # ascending, shared and per file, every container form; two (thorough: ten) selections naming an atom twice
+    for j in range(16 if quick else 120):
+        cases.append(_lac_sel_case(rng, j))
+    for j in range(2 if quick else 10):
+        cases.append(_lac_sel_case(rng, j, repeat=True))
+    for j in range(8 if quick else 48):
+        cases.append(_lac2_sel_case(rng, j))
     return cases
 
 
@@ -888,10 +1029,12 @@ def _run_lac2(c, d):
     kept, out = [], {"steps": []}
     for st in c["steps"]:
         fs = [fns[i] for i in st["files"]]
-        kw = {} if st["sel"] is None else {"atom_indices": np.array(st["sel"])}
+        kw = {} if st["sel"] is None else {"atom_indices": _sel_arg(st["sel"], c.get("selform"))}
         indiv = [md.load(f, **kw).xyz for f in fs]
         exp = np.concatenate(indiv)
         rec = {"expected": _digest(exp), "lengths_expected": [len(x) for x in indiv]}
+        if c.get("selform") is not None:
+            rec["expected_sorted"] = _digest(np.concatenate([md.load(f, atom_indices=np.sort(np.array(st["sel"]))).xyz for f in fs]))
         try:
             if st["entry"] == "lac":
                 lengths, xyz = load_as_concatenated(fs, processes=st["procs"],
@@ -1024,14 +1167,14 @@ def _top():
     return _TOP["t"]
 
 
-def _kw(f):
+def _kw(f, form=None):
     kw = {}
     if f["top"]:
         kw["top"] = _top()
     if f["stride"] != 1 and f["frame"] is None:
         kw["stride"] = f["stride"]
     if f["sel"] is not None:
-        kw["atom_indices"] = np.array(f["sel"])
+        kw["atom_indices"] = _sel_arg(f["sel"], form)
     if f["frame"] is not None:
         kw["frame"] = f["frame"]
     return kw
@@ -1046,14 +1189,39 @@ def _run_lac(c):
     import mdtraj as md
     from enspara.util.load import load_as_concatenated
     fns = [os.path.join(DATA, f["fn"]) for f in c["files"]]
-    kws = [_kw(f) for f in c["files"]]
+    form = c.get("selform")
+    kws = [_kw(f, form) for f in c["files"]]
+    if c["shared"] and form is not None:
+        kws = [kws[0]] * len(kws)           # one selection object for all files, as **kwargs hands it on
     nframes, indiv = [], []
-    for fn, kw in zip(fns, kws):
-        with md.open(fn) as fh:
-            nframes.append(len(fh))
-        indiv.append(md.load(fn, **kw).xyz)
+    try:
+        for fn, kw in zip(fns, kws):
+            with md.open(fn) as fh:
+                nframes.append(len(fh))
+            indiv.append(md.load(fn, **kw).xyz)
+    except Exception as ex:
+        if form is None:
+            raise
+        # the reference itself (md.load of one file with this selection) raises: nothing is demanded of the bulk load;
+        # what it does is recorded for the replay only
+        res = {"ref_err": "%s: %s" % (type(ex).__name__, str(ex)[:80]), "runs": {}}
+        for p in c["procs"][:2]:
+            try:
+                if c["shared"]:
+                    lengths, xyz = load_as_concatenated(fns, processes=p, **kws[0])
+                else:
+                    lengths, xyz = load_as_concatenated(fns, processes=p, args=kws)
+                res["runs"][str(p)] = {"lengths": [int(v) for v in lengths], "shape": list(xyz.shape)}
+            except Exception as ex2:
+                res["runs"][str(p)] = _err(ex2)
+        return res
     expected = np.concatenate(indiv)
     res = {"nframes": nframes, "indiv_len": [len(x) for x in indiv], "expected": _digest(expected), "runs": {}}
+    if form is not None:
+        # the same loads with every selection put into ascending order: tells a permutation of the atom columns from
+        # any other difference (never a demand by itself)
+        res["expected_sorted"] = _digest(np.concatenate([
+            md.load(fn, **dict(kw, atom_indices=np.sort(np.asarray(kw["atom_indices"])))).xyz for fn, kw in zip(fns, kws)]))
     n_items = int(expected.size)
     res["n_items"] = n_items
     small = n_items <= 3000
@@ -1070,6 +1238,9 @@ def _run_lac(c):
             if small and "xyz_bits" not in res:
                 res["xyz_bits"] = _to_bits(xyz)
                 res["xyz_digest"] = run["digest"]
+            if form is not None and run["digest"] != res["expected"] and xyz.shape == expected.shape:
+                run["bad_atom_columns"] = [int(v) for v in np.unique(np.argwhere(xyz != expected)[:, 1])]
+                run["shape"] = list(xyz.shape)
         except Exception as ex:
             run = _err(ex)
         res["runs"][str(p)] = run
@@ -1315,6 +1486,10 @@ def _oracle_main(c, r):
                 if r["data"] != [e for f in fs for e in f["elems"][::s]] or r["dtype"] != fs[0]["dtype"]:
                     out.append(("striped-npy", "data differ from the concatenated strided files"))
     else:
+        if "ref_err" in r:
+            # md.load of one of the files with its own selection raises (an atom named twice): there is no
+            # concatenation of individual loads to compare with, the property demands nothing here
+            return out
         exp_len = r["indiv_len"]
         for f, n, L in zip(c["files"], r["nframes"], exp_len):
             want = 1 if f["frame"] is not None else _ceil(n, f["stride"])
@@ -1328,6 +1503,20 @@ def _oracle_main(c, r):
                 out.append(("concat-lengths", "processes=%s lengths %s expected %s" % (p, run["lengths"], exp_len)))
             if run["digest"] != r["expected"] or run["dtype"] != "float32":
                 out.append(("concat", "processes=%s: xyz differs from the concatenation of the individual loads" % p))
+            if c.get("selform") is not None and run["digest"] != r["expected"]:
+                how = ("load_as_concatenated(files, processes=%s, stride=%s, atom_indices=<%s> %s)" % (
+                    p, c["files"][0]["stride"], c["selform"], c["files"][0]["sel"]) if c["shared"] else
+                       "load_as_concatenated(files, processes=%s, args=[per file: atom_indices=<%s> %s, strides %s])" % (
+                    p, c["selform"], [f["sel"] for f in c["files"]], [f["stride"] for f in c["files"]]))
+                what = "files %s: %s" % ([f["fn"] for f in c["files"]], how)
+                if run["digest"] == r.get("expected_sorted"):
+                    out.append(("concat-atom-order", "%s returns the atoms in ASCENDING order of their indices, not in the order "
+                                "of the selection as md.load(file, atom_indices=...) of each file does; atom columns %s differ" % (
+                                    what, run.get("bad_atom_columns"))))
+                else:
+                    out.append(("concat-atom-selection", "%s: shape %s, atom columns %s differ from the individual loads with the "
+                                "same selection%s" % (what, run.get("shape"), run.get("bad_atom_columns"),
+                                                      "" if "shape" in run else " (another atom count)")))
     return out
 
 
@@ -1346,6 +1535,12 @@ def _oracle_lac2(c, r):
             out.append(("concat-lengths", "%s: lengths %s expected %s" % (where, rec["lengths"], rec["lengths_expected"])))
         if rec["at_return"] != rec["expected"]:
             out.append(("concat", "%s: the result is not the concatenation of the individual loads" % where))
+            if c.get("selform") is not None and st["sel"] is not None:
+                out.append(("concat-atom-order" if rec["at_return"] == rec.get("expected_sorted") else "concat-atom-selection",
+                            "%s with atom_indices=<%s> %s: %s" % (where, c["selform"], st["sel"],
+                             "the atoms come back in ASCENDING order of their indices, not in the order of the selection"
+                             if rec["at_return"] == rec.get("expected_sorted") else
+                             "the atom columns differ from the individual loads with the same selection")))
         elif rec.get("at_end") != rec["expected"]:
             later = [j + 1 for i, j in r["aliased"] if i == k]
             out.append(("concat-kept-result", "%s: correct when returned, but after the later load(s) the SAME array no longer "
@@ -1566,7 +1761,12 @@ def coq_check(c, r):
 # ----------------------------------------------------------------------------- evidence
 def nontrivial(c, r):
     if c["kind"] == "lac2":
+        if c.get("selform") is not None:        # the order of the selection decides the expected data in some step
+            return ("steps" in r and all("at_end" in x for x in r["steps"]) and
+                    any(x["expected"] != x.get("expected_sorted") for x in r["steps"]))
         return "steps" in r and all("at_end" in x for x in r["steps"])
+    if c["kind"] == "lac" and c.get("selform") is not None:
+        return "expected" in r and r["expected"] != r.get("expected_sorted")
     if c["kind"] in ("long", "lachist", "longrow"):
         return True
     if c["kind"] == "ord":
@@ -1647,6 +1847,14 @@ def tags(c, r):
                 t.append("lac2-concatenate-trjs")
             if len({st["procs"] for st in c["steps"]}) >= 2:
                 t.append("lac2-worker-counts-differ")
+            if c.get("selform") is not None and any(x["expected"] != x.get("expected_sorted") for x in r["steps"]):
+                t.append("lac2-sel-unsorted")
+                if c.get("same_atoms") and len({tuple(sorted(st["sel"])) for st in c["steps"]}) == 1 and \
+                        len({tuple(st["sel"]) for st in c["steps"]}) >= 2:
+                    t.append("lac2-sel-same-atoms-other-order")
+                if any(st["entry"] == "lac" and x["expected"] != x.get("expected_sorted")
+                       for st, x in zip(c["steps"], r["steps"])):
+                    t.append("lac2-sel-unsorted-bulk-load")
     elif c["kind"] == "ra":
         n = len(c["rows"])
         t.append("form-" + c["form"])
@@ -1702,6 +1910,27 @@ def tags(c, r):
             t.append("lac-compared-in-coq")
         if len(c["files"]) >= 2 and c["sched"] != sorted(c["sched"]):
             t.append("lac-out-of-order-schedule")
+        if c.get("selform") is not None:
+            if "ref_err" in r:
+                t.append("lac-sel-repeat-reference-raises")
+                if any("err" not in x for x in r["runs"].values()):
+                    t.append("lac-sel-repeat-bulk-load-returns")
+            elif r.get("expected") != r.get("expected_sorted") and all("err" not in x for x in r["runs"].values()):
+                t.append("lac-sel-unsorted")
+                t.append("lac-sel-shared" if c["shared"] else "lac-sel-per-file")
+                t.append("lac-sel-form-" + c["selform"])
+                t.append("lac-sel-" + c["selorder"])
+                if not c["shared"]:
+                    if c["files"][0]["sel"] == sorted(c["files"][0]["sel"]):
+                        t.append("lac-sel-first-file-ascending")
+                    if len({tuple(f["sel"]) for f in c["files"]}) >= 2:
+                        t.append("lac-sel-per-file-selections-differ")
+                    if len({f["fn"] for f in c["files"]}) >= 2:
+                        t.append("lac-sel-mixed-formats")
+                else:
+                    t.append("lac-sel-shared-" + c["files"][0]["fn"].split(".")[-1])
+                if "xyz_bits" in r:
+                    t.append("lac-sel-compared-in-coq")
     return t
 
 
@@ -1722,7 +1951,13 @@ ESSENTIAL_TAGS = ["form-ra", "form-nd", "rows-10..99", "rows>=100", "stride>1", 
                   "lac2-worker-counts-differ",
                   # round 3s, second wave
                   "zrow", "zrow-first", "zrow-middle", "zrow-last", "zrow-two-empty-tables", "zrow-world-1", "zrow-world-2",
-                  "zrow-world-3", "zrow-world-4", "zrow-rank-holds-no-row", "zrow-stride>1", "zrow-multi-dim", "zrow-other-tag"]
+                  "zrow-world-3", "zrow-world-4", "zrow-rank-holds-no-row", "zrow-stride>1", "zrow-multi-dim", "zrow-other-tag",
+                  # round 3s, third wave: atom selections that are not ascending
+                  "lac-sel-unsorted", "lac-sel-shared", "lac-sel-per-file", "lac-sel-desc", "lac-sel-rot", "lac-sel-swap",
+                  "lac-sel-shuffle", "lac-sel-all-desc", "lac-sel-first-file-ascending", "lac-sel-per-file-selections-differ",
+                  "lac-sel-mixed-formats", "lac-sel-shared-xtc", "lac-sel-shared-h5", "lac-sel-compared-in-coq",
+                  "lac-sel-repeat-reference-raises", "lac2-sel-unsorted", "lac2-sel-same-atoms-other-order",
+                  "lac2-sel-unsorted-bulk-load"] + ["lac-sel-form-" + f for f in _SEL_FORMS]
 
 
 def search(rng, tier):
@@ -1743,7 +1978,8 @@ def search(rng, tier):
               [_ord_case(rng, lay, eq) for lay in _ORD_LAYOUTS for eq in (False, True)] +
               [_longrow_case(rng, "quick") for _ in range(2)] + [_lac_distinct_case(rng) for _ in range(10)] +
               [_resave_case(rng, sh) for sh in _RESAVE_SHAPES] + [_lac2_case(rng) for _ in range(10)] +
-              [_zrow_case(rng, wh) for wh in _ZROW_WHERE]):
+              [_zrow_case(rng, wh) for wh in _ZROW_WHERE] + [_lac_sel_case(rng, j) for j in range(10)] +
+              [_lac2_sel_case(rng, j) for j in range(4)]):
         r = run_impl(c)
         for key, msg in oracle(c, r):
             found.append((key, msg, c, r))
